@@ -138,6 +138,12 @@ func (r *nodeBasedBalancer) balanceHighestNode(loadRatios *model.Ratio, candidat
 		}
 		fromNodeID := highestLoadRatioNode.NodeID
 		fromNode := highestLoadRatioNode.Node
+		if fromNode.GetIdentifier() != fromNodeID {
+			// The node was not a member of any ensemble when the snapshot was taken
+			if node, exist := r.configResource.Node(fromNodeID); exist {
+				fromNode = *node
+			}
+		}
 		if _, err := r.swapShard(highestLoadRatioShard, fromNode, swapGroup, loadRatios, candidates, metadata, currentStatus); err != nil {
 			r.Error("failed to select server when swap the node",
 				slog.String("namespace", highestLoadRatioShard.Namespace),
@@ -145,6 +151,10 @@ func (r *nodeBasedBalancer) balanceHighestNode(loadRatios *model.Ratio, candidat
 				slog.String("from-node", fromNodeID),
 				slog.Any("error", err),
 			)
+			// This shard cannot be moved: try with the next one, do not retry it forever
+			if !shardIter.Prev() {
+				break
+			}
 			continue
 		}
 		if !shardIter.Prev() {
